@@ -118,6 +118,8 @@ class Ctx:
         self.tier = tier
         self.program = Program(self.repo)
         self.cfgs = CFGCache(self.program)
+        from . import dataflow as _df
+        _df.RECORD_FIELDS = self._record_fields
         self._summaries = None
         self.notes: List[str] = []
         self.functions_analysed: set = set()
@@ -156,6 +158,30 @@ class Ctx:
                     pass
             self._all_built = True
         return fi.qualname in inl.inlined and not inl.declined_sites.get(fi.qualname)
+
+    def _record_fields(self, where, node_or_call, call=None):
+        """Ordered field names if *call* constructs a NamedTuple / dataclass defined in the program.
+        *where* is a module, or a function together with the CFG node the call is evaluated at (code inlined
+        from a helper of another module resolves its names there)."""
+        from .program import dotted as _d
+        if call is None:
+            module, call = where, node_or_call
+        else:
+            module = where.module
+            q = getattr(node_or_call, "extra", {}).get("inlined_from") if node_or_call is not None else None
+            if q and q in self.program.functions:
+                module = self.program.functions[q].module
+        d = _d(call.func)
+        if d is None:
+            return None
+        kind, obj = self.program.resolve_dotted(module, d)
+        if kind != "class":
+            return None
+        bases = {(_d(b) or "").split(".")[-1] for b in obj.node.bases}
+        decos = {(_d(x if not isinstance(x, ast.Call) else x.func) or "").split(".")[-1] for x in obj.node.decorator_list}
+        if "NamedTuple" not in bases and "dataclass" not in decos:
+            return None
+        return [st.target.id for st in obj.node.body if isinstance(st, ast.AnnAssign) and isinstance(st.target, ast.Name)]
 
     def func_of_node(self, fnode) -> Optional[FuncInfo]:
         m = getattr(self, "_by_node", None)
